@@ -82,7 +82,7 @@ package dotenv
 //@   ensures[C18] err == nil ==> result.0 != nil
 
 //@ func expandVariables
-//@   except precondition#2 : undischarged on the reference tree (engine limit or missing callee contract), not claimed
+//@   except precondition@5abbf6#2 : undischarged on the reference tree (engine limit or missing callee contract), not claimed
 //@   nopanic[C01,C18]
 //@   requires lookupFn != nil
 
@@ -93,7 +93,7 @@ package dotenv
 //@ spec lookupVal(f ref, k string) string
 
 //@ func expandVariables$1
-//@   except nilrecv#1, precondition#1 : undischarged on the reference tree (engine limit or missing callee contract), not claimed
+//@   except nilrecv@66295d#1, precondition#1 : undischarged on the reference tree (engine limit or missing callee contract), not claimed
 //@   nopanic[C01,C18]
 // dyn1.0 / dyn1.1: the two results of the (only) call of the lookup function in this closure.
 // "lookup function first, earlier lines of the same file second":
